@@ -1,3 +1,100 @@
-From JV Require Import Model.Base Model.C06.
-Theorem C06_placeholder : True. Proof. exact I. Qed.
-Print Assumptions C06_placeholder.
+(* C06 -- Unmarshaling is faithful: accepted values are the payload's values.
+   [unmarshal_to_type] mirrors Attr.UnmarshalToType (type.go) on the JSON
+   token tree of the raw message (Model/Attr.v); [parse_int]/[parse_uint] are
+   strconv.ParseInt/ParseUint in base 10 (Model/Strconv.v); [lit_value] reads
+   an optional sign and decimal digits without any bound; [tparse]/[b64dec]
+   are the oracle functions for time.Time's UnmarshalJSON and base64
+   (encoding/json), arbitrary in every theorem below. *)
+From JV Require Import Model.Base Model.GoTime Gen.TypeGo Model.Schema Model.Value
+  Model.Strconv Model.Json Model.Attr Proofs.StrconvFacts Proofs.C06Facts.
+
+(* integers: accepted only within the declared width and signedness, stored unchanged *)
+Theorem C06_int : forall e a lit v,
+  is_int_kind (acode a) = true ->
+  unmarshal_to_type e a (JNum lit) = Ok v ->
+  exists z, lit_value lit = Some z /\ in_range (acode a) z = true /\
+            v = wrap_null a (VInt (acode a) z).
+Proof. exact unmarshal_int_faithful. Qed.
+Print Assumptions C06_int.
+
+(* null: the FULL statement "accepted only for nullable attributes" is false
+   for non-nullable bytes (recorded finding null-accepted-nonnullable-bytes). *)
+Theorem C06_null_partial : forall e a v,
+  acode a <> 14%Z -> unmarshal_to_type e a JNull = Ok v ->
+  anull a = true /\ v = zero_value (acode a) true.
+Proof. exact unmarshal_null_partial. Qed.
+Print Assumptions C06_null_partial.
+
+Theorem C06_null_refuted : forall e,
+  exists a, anull a = false /\ unmarshal_to_type e a JNull = Ok (VBytes true []).
+Proof. exact unmarshal_null_bytes_refuted. Qed.
+Print Assumptions C06_null_refuted.
+
+Theorem C06_null_all_cases : forall e a v,
+  unmarshal_to_type e a JNull = Ok v ->
+  (anull a = true /\ v = zero_value (acode a) true) \/
+  (anull a = false /\ acode a = 14%Z /\ v = VBytes true []).
+Proof. exact unmarshal_null. Qed.
+Print Assumptions C06_null_all_cases.
+
+(* strings, booleans, times, byte strings: the stored value is the token's denotation *)
+Theorem C06_string : forall e a j v,
+  acode a = 1%Z -> j <> JNull -> unmarshal_to_type e a j = Ok v ->
+  exists s esc, j = JStr s esc /\ v = wrap_null a (VStr s).
+Proof. exact unmarshal_string. Qed.
+Print Assumptions C06_string.
+
+Theorem C06_bool : forall e a j v,
+  acode a = 12%Z -> j <> JNull -> unmarshal_to_type e a j = Ok v ->
+  exists b, j = JBool b /\ v = wrap_null a (VBool b).
+Proof. exact unmarshal_bool. Qed.
+Print Assumptions C06_bool.
+
+Theorem C06_time : forall e a j v,
+  acode a = 13%Z -> j <> JNull -> unmarshal_to_type e a j = Ok v ->
+  exists s t, j = JStr s false /\ tparse e s = Some t /\ v = wrap_null a (VTime t).
+Proof. exact unmarshal_time. Qed.
+Print Assumptions C06_time.
+
+Theorem C06_bytes : forall e a s esc v,
+  acode a = 14%Z -> unmarshal_to_type e a (JStr s esc) = Ok v ->
+  exists b, b64dec e s = Some b /\ v = wrap_null a (VBytes false b).
+Proof. exact unmarshal_bytes_string. Qed.
+Print Assumptions C06_bytes.
+
+(* the stored value has exactly the Go type the attribute declares *)
+Theorem C06_typed : forall e a j v,
+  (1 <= acode a <= 14)%Z -> unmarshal_to_type e a j = Ok v ->
+  kind_of_value v = (acode a, anull a).
+Proof. exact unmarshal_typed. Qed.
+Print Assumptions C06_typed.
+
+(* decimal printing and parsing are inverse at every width (used by C01) *)
+Theorem C06_print_parse_signed : forall z bits,
+  (- 2 ^ (bits - 1) <= z < 2 ^ (bits - 1))%Z -> parse_int (itoa z) bits = Some z.
+Proof. exact parse_int_itoa. Qed.
+Print Assumptions C06_print_parse_signed.
+
+Theorem C06_print_parse_unsigned : forall z bits,
+  (0 <= z < 2 ^ bits)%Z -> parse_uint (utoa z) bits = Some z.
+Proof. exact parse_uint_utoa. Qed.
+Print Assumptions C06_print_parse_unsigned.
+
+Theorem C06_int_roundtrip : forall e a z,
+  is_int_kind (acode a) = true -> in_range (acode a) z = true ->
+  unmarshal_to_type e a (JNum (itoa z)) = Ok (wrap_null a (VInt (acode a) z)).
+Proof. exact unmarshal_int_roundtrip. Qed.
+Print Assumptions C06_int_roundtrip.
+
+(* non-vacuity and the boundary cases the property names *)
+Example c06_int8_edges : forall e,
+  unmarshal_to_type e (mkAttr "f" 3 false) (JNum "-128") = Ok (VInt 3 (-128)) /\
+  unmarshal_to_type e (mkAttr "f" 3 false) (JNum "128") = Err /\
+  unmarshal_to_type e (mkAttr "f" 3 false) (JNum "300") = Err /\
+  unmarshal_to_type e (mkAttr "f" 11 true) (JNum "18446744073709551615")
+    = Ok (VPtr 11 (Some (VInt 11 18446744073709551615))) /\
+  unmarshal_to_type e (mkAttr "f" 11 false) (JNum "18446744073709551616") = Err /\
+  unmarshal_to_type e (mkAttr "f" 5 false) (JNum "4294967297") = Err /\
+  unmarshal_to_type e (mkAttr "f" 2 false) (JNum "1.0") = Err /\
+  unmarshal_to_type e (mkAttr "f" 1 false) JNull = Err.
+Proof. intros e. vm_compute. repeat split. Qed.
